@@ -448,7 +448,7 @@ func checkMain(args []string) int {
 					for _, v := range res.Violations {
 						key := run.Name + "|" + v.Label + "|" + v.Kind + "|" + v.Site + "|" + strings.Join(v.Known, ",")
 						if v.Kind == "panic" {
-							key = run.Name + "|" + v.Label + "|" + v.Kind + "|" + v.Site + "|" + firstLine(v.Msg, 80)
+							key = run.Name + "|" + v.Label + "|" + v.Kind + "|" + v.Site + "|" + stripDigits(firstLine(v.Msg, 80))
 						}
 						g := groups[key]
 						if g == nil {
@@ -637,6 +637,15 @@ func checkMain(args []string) int {
 		fmt.Printf("OK property=%s tier=%s paths=%d wall=%.1fs\n", spec.Property, *tier, tot, time.Since(t0).Seconds())
 	}
 	return exit
+}
+
+func stripDigits(s string) string {
+	return strings.Map(func(r rune) rune {
+		if r >= '0' && r <= '9' {
+			return -1
+		}
+		return r
+	}, s)
 }
 
 func firstLine(s string, n int) string {
